@@ -336,6 +336,7 @@ const EXPRS: &[&str] = &[
     "(a ? b : c).d", "(a ? b : c)[0]", "(a ? b : c)(d)", "((a ? b : c) ? d : e) ? f : g", "a ? 'x' : 'y'", "a ? \"x\" : \"y\"",
     "a ? 'it\\'s' : b", "a ? '<' : '&lt;'", "a ? '&amp;lt;' : '&'", "a ? '{{' : '}}'", "a ? '</view>' : '<!--'", "a ? ' ' : ''", "a ? 'x' + b : c",
     "['x', \"y\"]", "{k: 'v'}", "f('x')", "f('x' + a)", "('x' + a) * 2", "'x' - a", "a == 'x'", "a['k']", "a['k-1'].b",
+    "[a, , b]", "[a, , ]", "[...a, , b]", "[, a]", "[, , a, , , b, ]", "[a, [ , b], ]", "[,]", "[, ,]", "[a, , b].length", "[a, , b][1]",
     "[a, b]", "[a, ...b]", "[[a], []]", "[]", "{}", "{a: 1, b}", "{...a, b: c}", "{'k-1': a}", "{a: {b: [c]}}", "[a, b][0]", "{a: 1}.a", "({a: 1}).a",
     "f()", "f(a, b)", "f(a)(b)", "a.f(b).g", "m.f(a, 1)", "f(a ? b : c, d)", "f((a, b))", "(a + b).c", "(a + b)[c]", "(a || b)(c)", "(-a).b", "(!a)[0]",
     "- -a", "-(-a)", "+(+a)", "-(+a)", "+(-a)", "!!a", "~~a", "typeof typeof a", "typeof (a + b)", "(typeof a) + b", "typeof a.b", "void 0", "-a.b", "-a[0]", "-f(a)",
